@@ -61,7 +61,7 @@ def joinOr (l : List String) : String := if l.isEmpty then "-" else ",".intercal
 
 def obs (s : St) (outs : List Out) : String :=
   let acc := if outs.any (· == .accepted) then "1" else "0"
-  let w := joinOr (outs.filterMap fun | .warnBadMi => some "mi" | .warnNoMi => some "nomi" | .warnBadFp => some "fp" | .warnTruncAttr => some "ta" | .warnNoReflexive => some "noref" | .roleConflict => some "rc" | _ => none)
+  let w := joinOr (outs.filterMap fun | .warnBadMi => some "mi" | .warnNoMi => some "nomi" | .warnBadFp => some "fp" | .warnTruncAttr => some "ta" | .warnMissingMi => some "nomi2" | .warnNoReflexive => some "noref" | .roleConflict => some "rc" | _ => none)
   let r := joinOr (outs.filterMap fun | .bindingResponse to t => some s!"{to}:{t}" | _ => none)
   let c := joinOr (outs.filterMap fun | .checkSent to t uc => some s!"{to}:{t}:{if uc then 1 else 0}" | _ => none)
   let p := joinOr (outs.filterMap fun | .pairState a st => some s!"{a}:{stateName st}" | _ => none)
